@@ -410,6 +410,39 @@ def make_interior_kept(job, g):
     return ok
 
 
+def add_pre_variant(job, g, kind=None):
+    """an earlier gen_coords call in the same process (same file names) over a VARIANT of the system:
+    other_geometry - same residue graphs and names, other bond lengths / angles (templates differ);
+    other_graph    - a molecule type of the same name with another residue graph;
+    shorter        - see add_pre_spec"""
+    import copy
+    kind = kind or g.choice(["other_geometry", "other_graph", "shorter"])
+    if kind == "shorter":
+        return add_pre_spec(job, g)
+    spec = job["spec"]
+    alt = copy.deepcopy(spec)
+    if kind == "other_geometry":
+        for rt in alt["restypes"].values():
+            for b in rt["bonds"]:
+                b[2] = round(min(0.6, b[2] * g.choice([0.6, 1.5, 1.8])), 3)
+            for c in rt["constraints"]:
+                c[2] = round(min(0.6, c[2] * g.choice([0.6, 1.5])), 3)
+            for a in rt["angles"]:
+                a[3] = g.choice([90, 110, 160])
+    else:
+        mt = alt["moltypes"][0]
+        n = len(mt["residues"])
+        if n < 3:
+            return False
+        if mt["shape"] == "linear":
+            mt["shape"], mt["edges"] = "star", [[0, k] for k in range(1, n)]
+        else:
+            mt["shape"], mt["edges"] = "linear", [[k, k + 1] for k in range(n - 1)]
+    job["pre_spec"] = alt
+    job["pre_kind"] = kind
+    return True
+
+
 def add_pre_spec(job, g):
     """an earlier call in the same process over a slightly different topology written to the SAME file names
     (an included .itp regenerated between two runs)"""
